@@ -33,19 +33,39 @@ func (emptyDepacketizer) Depacketize(p *Packet) error { return nil }
 
 type depacketizer struct {
 	syncClock SyncClock
+	// The 32-bit RTP timestamp starts at a random value (RFC 3550) and wraps;
+	// it is extended to 64 bits so that presentation times keep advancing across a wrap.
+	started bool   // a media timestamp has been seen
+	lastRTP uint32 // last media timestamp seen
+	extRTP  int64  // lastRTP extended to 64 bits
+	refRTP  int64  // extended RTP time the sync clock refers to (0 until a sender report arrives)
 }
 
 func (dp *depacketizer) Control(p *Packet) error {
 	if dp.syncClock.RTPTime == 0 {
 		if ok := dp.syncClock.Decode(p.Data); ok {
-
+			if dp.started {
+				dp.refRTP = dp.extRTP + int64(int32(dp.syncClock.RTPTime-dp.lastRTP))
+			} else {
+				dp.refRTP = int64(dp.syncClock.RTPTime)
+			}
 		}
 	}
 	return nil
 }
 
 func (dp *depacketizer) rtp2ntp(timestamp uint32) int64 {
-	return dp.syncClock.RelativeNtp(timestamp)
+	if !dp.started {
+		dp.started = true
+		dp.extRTP = dp.refRTP + int64(int32(timestamp-uint32(dp.refRTP)))
+		if dp.syncClock.RTPTime == 0 {
+			dp.extRTP = int64(timestamp)
+		}
+	} else {
+		dp.extRTP += int64(int32(timestamp - dp.lastRTP))
+	}
+	dp.lastRTP = timestamp
+	return int64(float64(dp.extRTP-dp.refRTP) * dp.syncClock.RTPTimeUnit)
 }
 
 // Demuxer 帧转换器
